@@ -45,11 +45,20 @@ package dag
 //@ func read
 //@   props C07 C03 C01
 //@   nopanic
-//@   requires repo != nil && def.OperationUnmarshaler != nil && wrapper != nil
+//@   pure wrapper
+//@   requires repo != nil && def.OperationUnmarshaler != nil
+//@   check [clock-edge] err == nil ==> (forall k int, j int :: { BFSOrder[k].Parents[j] } 0 <= k && k < len(BFSOrder) && 0 <= j && j < len(BFSOrder[k].Parents) ==> (BFSOrder[k].Parents[j] in oppMap) && oppMap[BFSOrder[k].Parents[j]].EditTime < oppMap[BFSOrder[k].Hash].EditTime)
+//@   check [clock-jump] err == nil ==> (forall k int, j int :: { BFSOrder[k].Parents[j] } 0 <= k && k < len(BFSOrder) && 0 <= j && j < len(BFSOrder[k].Parents) && len(BFSOrder[k].Parents) <= 1 ==> oppMap[BFSOrder[k].Hash].EditTime - oppMap[BFSOrder[k].Parents[j]].EditTime <= 1000000)
 //@   loop 3
 //@     invariant opsCount >= 0
 //@     invariant forall h repository.Hash :: { oppMap[h] } h in oppMap ==> oppMap[h] != nil
 //@     invariant forall k int :: { BFSOrder[k] } 0 <= k && k <= rangeindex ==> BFSOrder[k].Hash in oppMap
+//@   loop 4
+//@     invariant forall k int, j int :: { BFSOrder[k].Parents[j] } 0 <= k && k <= rangeindex && 0 <= j && j < len(BFSOrder[k].Parents) ==> (BFSOrder[k].Parents[j] in oppMap) && oppMap[BFSOrder[k].Parents[j]].EditTime < oppMap[BFSOrder[k].Hash].EditTime
+//@     invariant forall k int, j int :: { BFSOrder[k].Parents[j] } 0 <= k && k <= rangeindex && 0 <= j && j < len(BFSOrder[k].Parents) && len(BFSOrder[k].Parents) <= 1 ==> oppMap[BFSOrder[k].Hash].EditTime - oppMap[BFSOrder[k].Parents[j]].EditTime <= 1000000
+//@   loop 5
+//@     invariant forall j int :: { commit.Parents[j] } 0 <= j && j <= rangeindex ==> (commit.Parents[j] in oppMap) && oppMap[commit.Parents[j]].EditTime < opp.EditTime
+//@     invariant forall j int :: { commit.Parents[j] } 0 <= j && j <= rangeindex && len(commit.Parents) <= 1 ==> opp.EditTime - oppMap[commit.Parents[j]].EditTime <= 1000000
 //@   loop 7
 //@     invariant forall k int :: { oppSlice[k] } 0 <= k && k < len(oppSlice) ==> oppSlice[k] != nil
 //@     invariant oppSlice == nil || fresh(oppSlice)
